@@ -2,6 +2,7 @@
 from __future__ import annotations
 
 import copy
+import os
 import warnings
 
 from hypothesis import strategies as st
@@ -25,7 +26,7 @@ RULE = (
     "texts with ASCII, double-width, combining, DEC line-drawing characters, str and bytes) x 3 encodings x "
     "EVERY mode the built widget reports in sizing() x sizes 1..40 x 1..20 (1 and 2 over-weighted) x both "
     "focus values; each (tree, mode, size, focus) is rendered cold and then once more at the root over the "
-    "children's cached canvases while the first canvas is still referenced. Then a history of 0..3 mutations: "
+    "children's cached canvases while the first canvas is still referenced. Then a history of 1..3 mutations: "
     "the tree is rendered in every reported mode (canvases held, as a Screen holds what it drew), ONE public "
     "mutator of ONE node is called (vlib/mut_widgets.py: set_text / set_edit_text / set_label / set_state / "
     "set_data / align / wrap / width / focus / options / scroll position ..., exchange of a decoration's child, "
@@ -159,10 +160,17 @@ def check_mutation(w, op, spec, slot, case, wmode, rec_sizes, log):
     held = _render_all(w, cols, rows, focus)
     try:
         done = MU.apply(op, spec, w, slot, case["enc"], rec_sizes)
+    except MU.Ineffective as e:
+        # the setter returned but did not install the widget it was given: what the tree is now is not what the
+        # history says; the property (about renderings) is silent about setters -> counted, case dropped
+        _count(f"mutator-ineffective:{str(e).split(':')[0]}")
+        raise Discard() from None
     except Exception as e:
         if innermost_is_urwid(e):
             # the setter itself refused: not a rendering, the property is silent about it
-            _count(f"mutator-raised:{type(e).__name__}")
+            _count(f"mutator-raised:{getattr(e, 'mutator', '?')}:{type(e).__name__}")
+            if os.environ.get("VERIF_C01_MUTATOR_ERRORS"):
+                raise Violation(f"mutator-raised:{getattr(e, 'mutator', '?')}:{type(e).__name__}", f"{log} then {e!r}") from None
             raise Discard() from None
         raise
     if done is None:
@@ -268,7 +276,7 @@ def _classes(case):
 def shard(ctx):
     global _CTX
     _CTX = ctx
-    ctx.given("tree", tree_cases(ctx.scale(3, 4), 3, ctx.scale(1, 2)), ctx.scale(2500, 25000), nontrivial=_nontrivial, classify=_classes)
+    ctx.given("tree", tree_cases(ctx.scale(3, 4), 3, ctx.scale(1, 2)), ctx.scale(2000, 20000), nontrivial=_nontrivial, classify=_classes)
 
 
 def _has(case, pred):
@@ -295,9 +303,10 @@ KNOWN = {
     and _has(case, lambda s: s["cls"] == "Edit" and T.has_wide(s["text"] + T.markup_text(s["caption"]))),
     "C01-scrollbar-one-row": lambda sub, case, v: v.clause == "exception:WidgetError@widget/widget.py:validate_size"
     and _has(case, lambda s: s["cls"] == "ScrollBar"),
+    # (LineBox holds its widget in a WEIGHT column of a Columns of its own and reports that widget's sizing)
     "C01-columns-fixed-overreported": lambda sub, case, v: v.clause
     == "exception:ColumnsError@widget/columns.py:_get_fixed_column_sizes"
-    and _has(case, lambda s: s["cls"] == "Columns"),
+    and _has(case, lambda s: s["cls"] in ("Columns", "LineBox")),
     "C01-padding-relative-fixed": lambda sub, case, v: v.clause == "fixed-size"
     and _has(case, lambda s: s["cls"] == "Padding" and isinstance(s["width"], list)),
     # calculate_bargraph_display builds a row wider than the graph for some two-segment data; Text then wraps it
